@@ -91,6 +91,7 @@ class Project:
         self._load()
         self.normalized: List[str] = []
         self.transparent: set = set()       # new private helpers fully inlined into their callers
+        self.outside_surface: set = set()   # functions added after the pinned tree that no pinned function reaches (new API)
         if normalize:
             # helpers / constants introduced after the pinned tree are made transparent (sa/normalize.py)
             from .normalize import normalize as _normalize
